@@ -208,7 +208,7 @@ NOT_APPLICABLE = {}
 
 PROPS = {
     "C01": {
-        "modules": ["RsddModel.Props.C01", "RsddModel.Props.C01Total", "RsddModel.Props.TieIte"],
+        "modules": ["RsddModel.Props.C01", "RsddModel.Props.C01Total", "RsddModel.Props.TieIte", "RsddModel.Props.TieOrders"],
         "streams": [BDD_STREAM],
         "rule": BDD_RULE,
         "trusted": ["modelled not verified: unique table (C02), FxHasher (arbitrary function), unsafe aliasing of compute_table, std HashMap memo of cond_with_alloc (association list)"],
@@ -295,7 +295,7 @@ PROPS = {
         "explanation": "C07Bdd.* theorems; wmc stream compares implementation counts with brute-force sums and the mirrored fold.",
     },
     "C08": {
-        "modules": ["RsddModel.Props.C08"],
+        "modules": ["RsddModel.Props.C08", "RsddModel.Props.TieOrders"],
         "streams": [WMC_STREAM],
         "rule": "as C07; every diagram is smoothed over all n variables; the smoothed diagram, its paths, weighted and unweighted counts are compared",
         "trusted": ["modelled not verified: get_or_insert as structural normalisation (C02)"],
@@ -322,7 +322,7 @@ PROPS = {
         "explanation": "C03.* theorems; sdd stream: model == implementation (canonical form), implementation == spec truth tables.",
     },
     "C14": {
-        "modules": ["RsddModel.Props.C14"],
+        "modules": ["RsddModel.Props.C14", "RsddModel.Props.TieOrders"],
         "streams": [ORD_STREAM],
         "rule": "CNFs with unit/duplicate/tautological/empty clauses and unused indices -> linear, min-fill, FORCE orders and two run-time extensions; "
                 "explicit permutations through VarOrder::new; dtrees for random elimination orders with the derived vtree; vtrees from right_linear / "
